@@ -868,4 +868,279 @@ theorem trace_safe {s : State} {xs : List Input} (hI : Inv s)
         | nil => trivial
         | cons z zs => exact hm.2
 
+/-! ### the integrator -/
+
+/-- finite with magnitude at most `M` -/
+def AbsBd (M : Rat) (x : F64) : Prop := isFinite x = true ∧ (toRat x).abs ≤ M
+
+theorem AbsBd.nonneg {M : Rat} {x : F64} (h : AbsBd M x) : 0 ≤ M :=
+  Rat.le_trans Rat.abs_nonneg h.2
+
+theorem AbsBd.mono {M N : Rat} {x : F64} (h : AbsBd M x) (hMN : M ≤ N) : AbsBd N x :=
+  ⟨h.1, Rat.le_trans h.2 hMN⟩
+
+theorem Bd.absBd {M : Rat} {x : F64} (h : Bd M x) : AbsBd M x :=
+  ⟨h.1, by rw [Rat.abs_of_nonneg h.2.1]; exact h.2.2⟩
+
+theorem absBd_roundNE {q M : Rat} (hq : q.abs ≤ M) (hR : Rep M) (hM : M ≤ maxFin) :
+    AbsBd M (roundNE q) := by
+  have ha : q.abs ≤ maxFin := Rat.le_trans hq hM
+  refine ⟨isFinite_roundNE_of_le ha, ?_⟩
+  rw [toRat_roundNE_of_le ha]; exact rnd_abs_le_of_rep hR hq
+
+theorem absBd_zero {M : Rat} (h : 0 ≤ M) (b : Bool) : AbsBd M (.zero b) := ⟨rfl, by simpa [toRat] using h⟩
+
+theorem mul_absBd {x y : F64} {X Y M : Rat} (hx : AbsBd X x) (hy : AbsBd Y y) (hXY : X * Y ≤ M)
+    (hR : Rep M) (hM : M ≤ maxFin) : AbsBd M (mul x y) := by
+  have hM0 : 0 ≤ M := Rat.le_trans (Rat.mul_nonneg hx.nonneg hy.nonneg) hXY
+  obtain ⟨hfx, hxa⟩ := hx
+  obtain ⟨hfy, hya⟩ := hy
+  cases x with
+  | nan => simp [isFinite] at hfx
+  | inf n => simp [isFinite] at hfx
+  | zero a =>
+    cases y with
+    | nan => simp [isFinite] at hfy
+    | inf n => simp [isFinite] at hfy
+    | zero b => exact absBd_zero hM0 _
+    | fin v => exact absBd_zero hM0 _
+  | fin u =>
+    cases y with
+    | nan => simp [isFinite] at hfy
+    | inf n => simp [isFinite] at hfy
+    | zero b => exact absBd_zero hM0 _
+    | fin v =>
+      simp only [mul, toRat] at *
+      refine absBd_roundNE ?_ hR hM
+      rw [abs_mul]
+      have h1 : u.abs * v.abs ≤ X * v.abs := Rat.mul_le_mul_of_nonneg_right hxa Rat.abs_nonneg
+      have h2 : X * v.abs ≤ X * Y := Rat.mul_le_mul_of_nonneg_left hya (Rat.le_trans Rat.abs_nonneg hxa)
+      exact Rat.le_trans (Rat.le_trans h1 h2) hXY
+
+theorem add_absBd {x y : F64} {X Y : Rat} (hx : AbsBd X x) (hy : AbsBd Y y)
+    (hR : Rep (X + Y)) (hM : X + Y ≤ maxFin) : AbsBd (X + Y) (add x y) := by
+  have hX0 := hx.nonneg
+  have hY0 := hy.nonneg
+  obtain ⟨hfx, hxa⟩ := hx
+  obtain ⟨hfy, hya⟩ := hy
+  cases x with
+  | nan => simp [isFinite] at hfx
+  | inf n => simp [isFinite] at hfx
+  | zero a =>
+    cases y with
+    | nan => simp [isFinite] at hfy
+    | inf n => simp [isFinite] at hfy
+    | zero b => exact absBd_zero (by grind) _
+    | fin v => exact ⟨rfl, by simp only [add, toRat] at *; grind⟩
+  | fin u =>
+    cases y with
+    | nan => simp [isFinite] at hfy
+    | inf n => simp [isFinite] at hfy
+    | zero b => exact ⟨rfl, by simp only [add, toRat] at *; grind⟩
+    | fin v =>
+      simp only [add, toRat] at *
+      refine absBd_roundNE ?_ hR hM
+      rw [abs_le_iff] at *
+      constructor <;> grind
+
+
+theorem rep_nat {k : Nat} (hk : k < 9007199254740992) : Rep ((k : Nat) : Rat) := by
+  have := rep_natCast_mul (k := k) (K := 0) (show k < 2 ^ 53 from hk) (by decide)
+  rwa [pow2_zero, Rat.mul_one] at this
+
+/-- `Duration.Seconds()` of any int64: finite, magnitude at most 9 223 372 038. -/
+theorem durationSeconds_absBd {d : Int} (h : minI64 ≤ d ∧ d ≤ maxI64) :
+    AbsBd 9223372038 (durationSeconds d) := by
+  unfold minI64 maxI64 at h
+  unfold durationSeconds
+  have hq : (Int.tdiv d 1000000000).natAbs ≤ 9223372037 := by
+    rcases Int.le_total 0 d with h0 | h0
+    · rw [Int.tdiv_eq_ediv_of_nonneg h0]; omega
+    · have : Int.tdiv d 1000000000 = -((-d) / 1000000000) := by
+        rw [← Int.tdiv_eq_ediv_of_nonneg (by omega), Int.neg_tdiv, Int.neg_neg]
+      rw [this]; omega
+  have hr : (Int.tmod d 1000000000).natAbs < 1000000000 := by
+    rcases Int.le_total 0 d with h0 | h0
+    · rw [Int.tmod_eq_emod_of_nonneg h0]; omega
+    · have : Int.tmod d 1000000000 = -((-d) % 1000000000) := by
+        rw [← Int.tmod_eq_emod_of_nonneg (by omega), Int.neg_tmod, Int.neg_neg]
+      rw [this]; omega
+  rw [ofInt_exact (n := Int.tdiv d 1000000000) (by omega),
+    ofInt_exact (n := Int.tmod d 1000000000) (by omega), ofInt_second]
+  generalize Int.tdiv d 1000000000 = q at *
+  generalize Int.tmod d 1000000000 = r at *
+  have hqa := intCast_abs_le (m := 9223372037) hq
+  have hra := intCast_abs_le (m := 1000000000) (by omega : r.natAbs ≤ 1000000000)
+  have e1 : (((9223372037 : Nat) : Int) : Rat) = 9223372037 := by decide +kernel
+  have e2 : (((1000000000 : Nat) : Int) : Rat) = 1000000000 := by decide +kernel
+  rw [e1] at hqa; rw [e2] at hra
+  have hX : AbsBd 9223372037 (if q = 0 then F64.zero false else .fin (q : Rat)) := by
+    by_cases hq0 : q = 0
+    · simp only [hq0, if_true]; exact absBd_zero (by decide +kernel) _
+    · simp only [hq0, if_false]; exact ⟨rfl, hqa⟩
+  have hY : AbsBd 1 (div (if r = 0 then F64.zero false else .fin (r : Rat)) (.fin 1000000000)) := by
+    by_cases hr0 : r = 0
+    · simp only [hr0, if_true, div]; exact absBd_zero (by decide +kernel) _
+    · simp only [hr0, if_false, div]
+      rw [abs_le_iff] at hra
+      have hb : ((r : Rat) / 1000000000).abs ≤ 1 := by
+        rw [abs_le_iff]; constructor
+        · rw [le_div_iff (by decide)]; grind
+        · rw [div_le_iff (by decide)]; grind
+      exact absBd_roundNE hb rep_one (Rat.le_trans (by decide +kernel) maxFin_big)
+  have e3 : (9223372037 : Rat) + 1 = 9223372038 := by decide +kernel
+  have := add_absBd hX hY (by rw [e3]; have := rep_nat (k := 9223372038) (by decide); exact this)
+    (by rw [e3]; exact Rat.le_trans (by decide +kernel) maxFin_big)
+  rwa [e3] at this
+
+/-- The integrator after `n` updates: finite, `|l.i| ≤ n·2²⁵`. -/
+def IntegBd (n : Nat) (s : State) : Prop := AbsBd ((n : Rat) * 33554432) s.i
+
+theorem natCast_succ (n : Nat) : ((n + 1 : Nat) : Rat) = (n : Rat) + 1 := by
+  rw [Rat.natCast_add]; rfl
+
+theorem integBd_succ {n : Nat} {s : State} (h : IntegBd n s) : IntegBd (n + 1) s := by
+  refine h.mono ?_
+  rw [natCast_succ]
+  have : (0 : Rat) ≤ (n : Rat) := Rat.natCast_nonneg
+  grind
+
+/-- growth of the integrator in one tracking update: `|p·b| ≤ 2²⁵` -/
+theorem integ_term_absBd {off : Int} {a b : F64} (hoff : minI64 ≤ off ∧ off ≤ maxI64)
+    (ha : Bd pInitR a) (hb : Bd bInitR b) :
+    AbsBd 33554432 (mul (mul (durationSeconds off) a) b) := by
+  have hs := durationSeconds_absBd hoff
+  have hp : AbsBd ((4294967296 : Nat) : Rat) (mul (durationSeconds off) a) :=
+    mul_absBd hs ha.absBd (by decide +kernel) (rep_nat (by decide))
+      (Rat.le_trans (by decide +kernel) maxFin_big)
+  have e : ((33554432 : Nat) : Rat) = 33554432 := by decide +kernel
+  have := mul_absBd hp hb.absBd (M := ((33554432 : Nat) : Rat)) (by decide +kernel) (rep_nat (by decide))
+    (Rat.le_trans (by decide +kernel) maxFin_big)
+  rwa [e] at this
+
+theorem step_integ {s : State} {e : Nat} {now off : Int} {w pw : F64} {n : Nat}
+    (hg : Gain s) (hpw : Bd 1 pw) (hoff : minI64 ≤ off ∧ off ≤ maxI64) (hn : n + 1 < 2 ^ 53)
+    (hi : IntegBd n s) : IntegBd (n + 1) ((step s e now off w pw).next s) := by
+  have hi0 : IntegBd n (syncEpoch s e) := by
+    rcases syncEpoch_cases s e with ⟨_, h⟩ | ⟨_, h⟩ <;> rw [h] <;> exact hi
+  have hg0 : Gain (syncEpoch s e) := by
+    rcases syncEpoch_cases s e with ⟨_, h⟩ | ⟨_, h⟩ <;> rw [h]
+    · exact ⟨hg.a, hg.b⟩
+    · exact hg
+  have hspec := step_spec s e now off w pw
+  simp only at hspec
+  rcases hspec with ⟨_, hr⟩ | ⟨_, _, hr⟩ | ⟨_, _, _, _, hr⟩ | ⟨_, _, _, _, hr⟩ | ⟨_, _, _, hr⟩ |
+      ⟨_, _, hr⟩ | ⟨_, _, _, hr⟩ | ⟨_, _, _, hr⟩ | ⟨_, _, hr⟩ | ⟨_, _, _, hr⟩ | ⟨_, _, _, hr⟩ | ⟨_, hr⟩
+  all_goals rw [hr]
+  all_goals try exact integBd_succ hi
+  all_goals try exact integBd_succ hi0
+  have hgb := gains_bd hg0 hpw (timeSub now (syncEpoch s e).t0) w
+  have hgf := gains_frame (syncEpoch s e) (timeSub now (syncEpoch s e).t0) w pw
+  simp only at hgf
+  have hr2 := inv_range (inv_range hoff |> fun h => ⟨by omega, h.2⟩)
+  have hterm := integ_term_absBd (off := inv (inv off)) ⟨by omega, hr2.2⟩ hgb.2.1 hgb.2.2
+  have hi1 : AbsBd ((n : Rat) * 33554432) (gains (syncEpoch s e) (timeSub now (syncEpoch s e).t0) w pw).1.i := by
+    rw [hgf.2.2.2.2]; exact hi0
+  have hsum : (n : Rat) * 33554432 + 33554432 = ((n + 1 : Nat) : Rat) * 33554432 := by
+    rw [natCast_succ]; grind
+  have hp25 : pow2 25 = 33554432 := by decide +kernel
+  have hrep : Rep (((n + 1 : Nat) : Rat) * 33554432) := by
+    have := rep_natCast_mul (k := n + 1) (K := 25) hn (by decide)
+    rwa [hp25] at this
+  have hmax : ((n + 1 : Nat) : Rat) * 33554432 ≤ maxFin := by
+    have h1 : ((n + 1 : Nat) : Rat) ≤ ((9007199254740992 : Nat) : Rat) :=
+      Rat.natCast_le_natCast.mpr (by have : (2:Nat) ^ 53 = 9007199254740992 := by decide
+                                     omega)
+    have h2 : ((n + 1 : Nat) : Rat) * 33554432 ≤ ((9007199254740992 : Nat) : Rat) * 33554432 :=
+      Rat.mul_le_mul_of_nonneg_right h1 (by decide +kernel)
+    have h3 : ((9007199254740992 : Nat) : Rat) * 33554432 = pow2 78 := by decide +kernel
+    rw [h3] at h2
+    exact Rat.le_trans h2 (pow2_le_maxFin (by decide))
+  have hadd := add_absBd hi1 hterm (by rw [hsum]; exact hrep) (by rw [hsum]; exact hmax)
+  rw [hsum] at hadd
+  rcases track_cases (syncEpoch s e) now (timeSub now (syncEpoch s e).t0)
+      (durationSeconds (timeSub now (syncEpoch s e).t)) (inv off) w pw with ⟨_, h⟩ | ⟨_, h⟩
+  all_goals rw [h]; exact hadd
+
+/-- a relation holds between every two consecutive updates -/
+def Consec (R : Input → Input → Prop) : List Input → Prop
+  | x :: y :: rest => R x y ∧ Consec R (y :: rest)
+  | _ => True
+
+/-- `trace_safe` with the link to the previous update: in a history without panics the state
+    before an update is in mode 0 (very first update) or carries the previous update's reading
+    in `l.t`. -/
+theorem trace_linked {R : Input → Input → Prop} {s : State} {xs : List Input} (hI : Inv s)
+    (prev : Option Input) (hnone : prev = none → s.mode = 0)
+    (hprev : ∀ p, prev = some p → s.t = p.now ∧ s.epoch = p.clkEpoch)
+    (hheadR : ∀ x p, xs.head? = some x → prev = some p → R p x ∧ (p.clkEpoch = x.clkEpoch → p.now ≤ x.now))
+    (hm : NonDecreasingInEpoch xs) (hR : Consec R xs) :
+    ∀ τ ∈ trace s xs, Inv τ.1 ∧ (∃ s' acts, τ.2.2 = .ok s' acts) ∧
+      (τ.1.mode = 0 ∨ ∃ p, R p τ.2.1 ∧ τ.1.t = p.now ∧ (τ.2.1.clkEpoch = τ.1.epoch → p.now ≤ τ.2.1.now)) := by
+  induction xs generalizing s prev with
+  | nil => simp [trace]
+  | cons x xs ih =>
+    have hx : x.clkEpoch = s.epoch → s.mode ≠ 0 → s.t ≤ x.now := by
+      intro he h0
+      cases prev with
+      | none => exact absurd (hnone rfl) h0
+      | some p =>
+        obtain ⟨ht, hep⟩ := hprev p rfl
+        rw [ht]; exact (hheadR x p rfl rfl).2 (by rw [← hep, he])
+    obtain ⟨s', acts, hst, hI', ht, he, hm0⟩ :=
+      step_safe (s := s) (e := x.clkEpoch) (now := x.now) (off := x.offset) (w := x.weight) (pw := x.pow) hI hx
+    have hnext : (stepIn s x).next s = s' := by simp [stepIn, hst, Outcome.next]
+    simp only [trace, List.mem_cons]
+    rintro τ (rfl | h)
+    · refine ⟨hI, ⟨s', acts, hst⟩, ?_⟩
+      cases prev with
+      | none => exact Or.inl (hnone rfl)
+      | some p =>
+        obtain ⟨ht', hep⟩ := hprev p rfl
+        refine Or.inr ⟨p, (hheadR x p rfl rfl).1, ht', fun he' => (hheadR x p rfl rfl).2 (by rw [← hep, he'])⟩
+    · rw [hnext] at h
+      refine ih hI' (some x) (by intro hc; cases hc) ?_ ?_ ?_ ?_ τ h
+      · intro p hp; cases hp; exact ⟨ht, he⟩
+      · intro y p hy hp
+        cases hp
+        cases xs with
+        | nil => simp at hy
+        | cons z zs =>
+          simp only [List.head?_cons, Option.some.injEq] at hy
+          subst hy
+          exact ⟨hR.1, hm.1⟩
+      · cases xs with
+        | nil => trivial
+        | cons z zs => exact hm.2
+      · cases xs with
+        | nil => trivial
+        | cons z zs => exact hR.2
+
+/-- index-carrying induction for the integrator bound -/
+theorem trace_integ {s : State} {xs : List Input} {n : Nat} (hg : Gain s) (hi : IntegBd n s)
+    (hpw : ∀ x ∈ xs, Bd 1 x.pow) (hoff : ∀ x ∈ xs, minI64 ≤ x.offset ∧ x.offset ≤ maxI64)
+    (hlen : n + xs.length < 2 ^ 53) :
+    ∀ τ ∈ trace s xs, IntegBd (n + xs.length) (τ.2.2.next τ.1) := by
+  induction xs generalizing s n with
+  | nil => simp [trace]
+  | cons x xs ih =>
+    simp only [List.length_cons] at hlen ⊢
+    have hstep := step_integ (s := s) (e := x.clkEpoch) (now := x.now) (off := x.offset) (w := x.weight)
+      (pw := x.pow) (n := n) hg (hpw x (List.mem_cons_self ..)) (hoff x (List.mem_cons_self ..)) (by omega) hi
+    have hgs := step_gain (s := s) (e := x.clkEpoch) (now := x.now) (off := x.offset) (w := x.weight)
+      (pw := x.pow) hg (hpw x (List.mem_cons_self ..))
+    simp only [trace, List.mem_cons]
+    rintro τ (rfl | h)
+    · have hmono : ∀ k, IntegBd (n + 1) ((stepIn s x).next s) → IntegBd (n + 1 + k) ((stepIn s x).next s) := by
+        intro k hk
+        induction k with
+        | zero => exact hk
+        | succ k ihk => exact integBd_succ ihk
+      have := hmono xs.length hstep
+      rwa [show n + 1 + xs.length = n + (xs.length + 1) by omega] at this
+    · have := ih (n := n + 1) hgs hstep (fun y hy => hpw y (List.mem_cons_of_mem _ hy))
+        (fun y hy => hoff y (List.mem_cons_of_mem _ hy)) (by omega) τ h
+      rwa [show n + 1 + xs.length = n + (xs.length + 1) by omega] at this
+
+
 end ScionTime.Pll
